@@ -72,7 +72,12 @@ def pristine():
     bufA = S.word_signal('aadaaazzaaaadaan')
     bufB = 2.0 * S.word_signal('bbnbbdabbbzbbeaa') + 1.0
     buf = np.zeros(len(bufA))
-    return dict(bm=bm, sigL=sigL, sigL2=sigL2, sigz=sigz, dfz=dfz, buf=buf, bufA=bufA, bufB=bufB, dfnb=dfnb, bk8=bk8, dfs_off=dfs_off, dfc_off=dfc_off, fek_empty=fek_empty, fek_other=fek_other, sig=sig, thr=thr, thra=thra, thram=thram, bk=bk, bkm=bkm, bkfull=bkfull, fek=fek, sigs2=sigs2, sigs3=sigs3,
+    signan = S.word_signal('aadaaazzaaaadaan')    # a recording with missing samples (NaN): whatever the outcome, the caller's array keeps them
+    signan[[40, 41, 77]] = np.nan
+    siginf = S.word_signal('aadaaazzaaaadaan')    # ... and one with saturated samples (+/-inf)
+    siginf[[33]] = np.inf
+    siginf[[90]] = -np.inf
+    return dict(signan=signan, siginf=siginf, bm=bm, sigL=sigL, sigL2=sigL2, sigz=sigz, dfz=dfz, buf=buf, bufA=bufA, bufB=bufB, dfnb=dfnb, bk8=bk8, dfs_off=dfs_off, dfc_off=dfc_off, fek_empty=fek_empty, fek_other=fek_other, sig=sig, thr=thr, thra=thra, thram=thram, bk=bk, bkm=bkm, bkfull=bkfull, fek=fek, sigs2=sigs2, sigs3=sigs3,
                 cfk=cfk, cfka=cfka, cfkl=cfkl, cfkl2=cfkl2, dfc=dfc, dft=dft, dfa=dfa, dfs=dfs, p=p, t=t, r=r, d=d)
 
 
@@ -82,6 +87,14 @@ def _expect_raise(f):
     except ValueError as e:
         return 'ValueError'
     return 'returned'
+
+
+def _outcome(f):
+    """Result of a call whose outcome on such input the property does not prescribe (a table or an exception): only purity is observed."""
+    try:
+        return f()
+    except Exception as e:      # noqa
+        return type(e).__name__
 
 
 def _fresh_str(v):
@@ -176,6 +189,9 @@ def alphabet():
         'amp_buf_B': lambda s: (s['buf'].__setitem__(slice(None), s['bufB']), compute_features(s['buf'], FS, FR, burst_method='amp', threshold_kwargs=s['thra'], burst_kwargs=s['bk']))[1],
         'shape_buf_B': lambda s: (s['buf'].__setitem__(slice(None), s['bufB']), compute_shape_features(s['buf'], FS, FR))[1],
         # default-argument paths: no thresholds / no options given
+        'cf_nan': lambda s: _outcome(lambda: compute_features(s['signan'], FS, FR, threshold_kwargs=s['thr'])),
+        'cyclepoints_nan': lambda s: _outcome(lambda: compute_cyclepoints(s['signan'], FS, FR)),
+        'shape_inf_t': lambda s: _outcome(lambda: compute_shape_features(s['siginf'], FS, FR, center_extrema='trough')),
         'cf_default': lambda s: compute_features(s['sig'], FS, FR),
         'cf_default_t': lambda s: compute_features(s['sig'], FS, FR, center_extrema='trough'),
         'cf_amp_default': lambda s: compute_features(s['sig'], FS, FR, burst_method='amp'),
@@ -243,7 +259,7 @@ def alphabet():
     return A
 
 
-NAMES = ['obj_fit', 'obj_fit_edges', 'obj_fit_other', 'rename_cons', 'rename_cons_tw', 'amp_longA', 'amp_longB', 'cf_longA', 'cf_longB', 'cf_band6.5', 'cf_band6.25', 'cf_fs64.5', 'shape_nc3.5', 'ampcons_z', 'percons_z', 'burstfeat_z', 'cf_z', 'cf_trough_tw', 'cf_amp_tw', 'shape_t_tw', 'h_rename_tw', '2d_dict_tw', '2d_none_tw', 'h_rename_nosamp', 'h_rename', 'h_split', 'h_flatten', 'h_detect_c', 'h_detect_a', 'h_minrun', 'burstfeat_c_off', 'edges_off',
+NAMES = ['cf_nan', 'cyclepoints_nan', 'shape_inf_t', 'obj_fit', 'obj_fit_edges', 'obj_fit_other', 'rename_cons', 'rename_cons_tw', 'amp_longA', 'amp_longB', 'cf_longA', 'cf_longB', 'cf_band6.5', 'cf_band6.25', 'cf_fs64.5', 'shape_nc3.5', 'ampcons_z', 'percons_z', 'burstfeat_z', 'cf_z', 'cf_trough_tw', 'cf_amp_tw', 'shape_t_tw', 'h_rename_tw', '2d_dict_tw', '2d_none_tw', 'h_rename_nosamp', 'h_rename', 'h_split', 'h_flatten', 'h_detect_c', 'h_detect_a', 'h_minrun', 'burstfeat_c_off', 'edges_off',
          'limit_off', 'epoch_off', 'mono_off', 'cf_fek_empty', 'shape_fek_other', 'extrema_fk_empty', 'cf_fail_t', 'cf_fail_amp', 'shape_fail_t', 'amp_buf_A', 'amp_buf_B', 'cf_default', 'cf_default_t', 'cf_amp_default', 'cf_amp_nothr_m8', 'edges_noburst', 'cf_buf_A', 'cf_buf_B', 'shape_buf_B', 'cf_cycles', 'cf_trough', 'cf_amp', 'cf_amp_m', 'cf_amp_t', 'cf_nosamp', 'shape', 'shape_t', 'cyclepoints',
          'burstfeat_c', 'burstfeat_a', 'ampfrac', 'ampcons', 'percons', 'mono', 'bfrac', 'extrema', 'zerox', 'phase',
          '2d_dict', '2d_amp', '2d_list', '2d_none', '2d_none_list', '3d', '3d_1', '3d01', 'edges', 'edges_t', 'limit',
